@@ -1,14 +1,14 @@
 SPECIFICATION Spec
 CONSTANTS
  Content <- MCContent
- Systems <- MCSystemsDev
+ Systems <- MCSystemsShare
  BuildFiles <- MCBuildDev
  DevVolLost = FALSE
  DevVolOverwritten = FALSE
  DevUserRegen = FALSE
- DevRecentre = TRUE
+ DevRecentre = FALSE
  DevKeySites = FALSE
- DevProcForgets = FALSE
+ DevProcForgets = TRUE
  LargeN = 16
-INVARIANT UserTemplateUnchanged
+INVARIANT OneTemplatePerKey
 CHECK_DEADLOCK FALSE
